@@ -32,10 +32,10 @@ theorem bodyRun_src (hnames : List Spec.Name) (h : Handler) (hf : FragTs h.body 
     · push_cast; exact h2
   · rw [hr, hst, List.nil_append]
 
-theorem flowOk_src (h : Handler) (hok : okAmbs false h.body = true) : FlowOk Bsrc Fsrc h := by
+theorem flowOk_src (h : Handler) (hfr : FragTs h.body = true) (hok : okAmbs false h.body = true) : FlowOk Bsrc Fsrc h := by
   intro a len raw hB _
   obtain ⟨src, hemb, hsz, rfl⟩ := hB
-  have := flow_core h.body src hemb hok a ((a : Int) + (P.sizes (lower src) : Int))
+  have := flow_core h.body src hfr hemb hok a ((a : Int) + (P.sizes (lower src) : Int))
   have e : ((a + len : Nat) : Int) = (a : Int) + (P.sizes (lower src) : Int) := by rw [hsz]; push_cast; rfl
   rw [e]
   exact ⟨tgtL (a : Int) src, this, embT_tgtL h.body src hemb _⟩
@@ -57,7 +57,7 @@ theorem parse_structured (o : Options) (s : Spec.Script) (c : Compiled) (hf : Fr
   obtain ⟨hfac, hH⟩ := hf
   obtain ⟨t, ht, hrel, _⟩ := parse_linkg Bsrc Fsrc o s c hfac (fun h hh => by
     obtain ⟨⟨⟨h1, h2⟩, h3⟩, h4⟩ := hH h hh
-    exact ⟨bodyRun_src _ h h2, flowOk_src h h3, h1, h4⟩) hcmp hasc hlen
+    exact ⟨bodyRun_src _ h h2, flowOk_src h h2 h3, h1, h4⟩) hcmp hasc hlen
   exact ⟨t, ht, hrel⟩
 
 end Drx.LinkFlow
